@@ -267,7 +267,8 @@ impl Prop for C07 {
         ensure!(re.wdata.len() == p.wdata.len(), "idempotent", "re-preparing changes the number of factors from {} to {}", p.wdata.len(), re.wdata.len());
         for (x, y) in p.wdata.iter().zip(re.wdata.iter()) {
             ensure!(
-                x.carrier == y.carrier && x.source == y.source && x.dest == y.dest && x.step == y.step && x.ren == y.ren && x.nren == y.nren && x.co2 == y.co2 && x.comment == y.comment,
+                // (values to the three decimals of the printed set: a factor such as 0.0004 prints as 0.000)
+                x.carrier == y.carrier && x.source == y.source && x.dest == y.dest && x.step == y.step && (x.ren - y.ren).abs() <= 0.000501 && (x.nren - y.nren).abs() <= 0.000501 && (x.co2 - y.co2).abs() <= 0.000501 && x.comment == y.comment,
                 "idempotent",
                 "re-preparing changes `{}` into `{}`",
                 x,
